@@ -62,8 +62,9 @@ Lemma delivers_transfer q u T T' :
   Delivers fl e q u T'.
 Proof.
   intros D E0 EK Ic. destruct D as [A B C0 C D0 E1]. constructor; try assumption.
-  - intros K NE N IK. destruct (C K NE N IK) as [R [Q1 [Q2 Q3]]]. exists R. split; [exact Q1|]. split; [congruence|].
-    intros IKu. rewrite (EK K IKu). apply Q3, IKu.
+  - intros K NE N IK. destruct (C K NE N IK) as [R [Q1 [Q2 [Q3 Q4]]]]. exists R. split; [exact Q1|]. split; [congruence|]. split.
+    + intros IKu. rewrite (EK K IKu). apply Q3, IKu.
+    + intros C1 N1 I1 I2. rewrite (EK C1 I2). apply Q4; assumption.
   - destruct D0 as [R [Q1 Q2]]. exists R. split; [exact Q1|congruence].
   - intros n ts Eq. destruct (E1 n ts Eq) as [st [G1 G2]]. exists st. split; [exact G1|congruence].
 Qed.
@@ -180,7 +181,7 @@ Proof.
   - exact IuT.
   - intros K NK NDK IK. simpl in IK. rewrite keys_pass in IK. rewrite EQ, (ES K NK IK). eexists. split; [reflexivity|]. split.
     + rewrite sel_nil_sel. exact E0.
-    + intros _. apply EU, IK.
+    + split; [intros _; apply EU, IK|]. intros C _ IC _. rewrite (sel_sel C K U IC). apply EU. intros x Hx. apply IK, IC, Hx.
   - rewrite EQ. exists U. split; [|exact E0]. unfold sql_select. destruct uj; [congruence|reflexivity].
   - intros n ts X. discriminate.
 Qed.
